@@ -114,7 +114,7 @@ def main(argv=None):
             return 1
         return 0 if r["st"] in ("ok", "excl", "skip") else 2
 
-    workdir = os.path.join(env.VERIF, "out", "work", "%s-%d" % (pid, os.getpid()))
+    workdir = os.path.join(env.OUT, "out", "work", "%s-%d" % (pid, os.getpid()))
     os.makedirs(workdir, exist_ok=True)
     problems = []
     try:
@@ -174,13 +174,13 @@ def finish(pid, prop, tier, seed, results, summaries, problems, wall):
     inconc = [r for r in results if r["st"] == "inconc"]
 
     # triage aid: every violation of the last run (listed or not), one JSON line each
-    ddir = os.path.join(env.VERIF, "out", "last")
+    ddir = os.path.join(env.OUT, "out", "last")
     os.makedirs(ddir, exist_ok=True)
     with open(os.path.join(ddir, "%s-%s.viol.jsonl" % (pid, tier)), "w") as fd:
         for r in viols:
             fd.write(json.dumps({"sig": r.get("sig"), "msg": r.get("msg"), "cls": r.get("cls")}, ensure_ascii=False, default=str) + "\n")
     # replay files for unlisted violations
-    rdir = os.path.join(env.VERIF, "replays", pid)
+    rdir = os.path.join(env.OUT, "replays", pid)
     out_lines = []
     if unknown:
         os.makedirs(rdir, exist_ok=True)
@@ -193,7 +193,7 @@ def finish(pid, prop, tier, seed, results, summaries, problems, wall):
             with open(path, "w") as fd:
                 json.dump({"property": pid, "sig": r.get("sig"), "msg": r.get("msg"), "case": r.get("case"),
                            "seed": seed, "tier": tier, "trace": r.get("trace")}, fd, indent=1, ensure_ascii=False, default=str)
-            out_lines.append("VIOLATION property=%s replay=%s  # %s: %s" % (pid, os.path.relpath(path, env.VERIF), r.get("sig"), (r.get("msg") or "")[:300]))
+            out_lines.append("VIOLATION property=%s replay=%s  # %s: %s" % (pid, os.path.relpath(path, env.OUT), r.get("sig"), (r.get("msg") or "")[:300]))
     for sig, rs in sorted(known_hits.items()):
         out_lines.append("KNOWN-FINDING: property=%s %s (%d cases this run; e.g. %s)" % (pid, listed[sig]["what"], len(rs), (rs[0].get("msg") or "")[:160]))
 
@@ -210,7 +210,7 @@ def finish(pid, prop, tier, seed, results, summaries, problems, wall):
                 path = os.path.join(rdir, "%s-post-%d.json" % (tier, len(out_lines)))
                 with open(path, "w") as fd:
                     json.dump({"property": pid, "sig": "post", "msg": msg, "case": None, "seed": seed, "tier": tier}, fd, indent=1)
-                out_lines.append("VIOLATION property=%s replay=%s  # %s" % (pid, os.path.relpath(path, env.VERIF), msg[:300]))
+                out_lines.append("VIOLATION property=%s replay=%s  # %s" % (pid, os.path.relpath(path, env.OUT), msg[:300]))
                 unknown.append({"sig": "post", "msg": msg})
     if problems:
         reasons += problems
@@ -260,8 +260,8 @@ def finish(pid, prop, tier, seed, results, summaries, problems, wall):
         "wall_s": round(wall, 2),
         "violations": len(unknown),
     }
-    os.makedirs(os.path.join(env.VERIF, "evidence"), exist_ok=True)
-    with open(os.path.join(env.VERIF, "evidence", "%s.json" % pid), "w") as fd:
+    os.makedirs(os.path.join(env.OUT, "evidence"), exist_ok=True)
+    with open(os.path.join(env.OUT, "evidence", "%s.json" % pid), "w") as fd:
         json.dump(ev, fd, indent=1, ensure_ascii=False, default=str)
         fd.write("\n")
 
